@@ -603,6 +603,11 @@ def sequence_case(sh, i):
         with instrument.use_bus(bus):
             systems = [System()]
             mine = {0: make_assets(rng, 'a', rng.randint(1, 5))}
+            if rng.random() < 0.1:
+                # scale: several hundred assets in one system (ids pass powers of ten, long registries)
+                for k in range(rng.choice([20, 60])):
+                    mine[0].extend(make_assets(rng, f'big{k}', 6))
+                sh.count('sequences_with_hundreds_of_assets')
             nsys = rng.choice([1, 2, 2, 3])
             simulated = set()
             for k in range(1, nsys):
